@@ -171,7 +171,7 @@ class C14(Lab):
         "a start() without a preceding disable() is generated; there only 'no other mode gets a callback' and 'nothing after on_disable' are judged for the old mode",
     )
     budgets = {"quick": 1200, "thorough": 40000}
-    time_budget = {"quick": 80, "thorough": 1500}
+    time_budget = {"quick": 240, "thorough": 3600}
 
     def setup(self):
         simenv.init()
